@@ -46,6 +46,7 @@ INFO = {
  'C20-B': ('C20', 'an unknown key inside the [sort_requires] table of stylua.toml', ['C20 quick'], ''),
  'C09-A': ('C09', 'a range, and an out-of-range LAST statement (return/break) written with a semicolon', ['C09 quick'], 'second round, on the fixed tree'),
  'C09-B': ('C09', 'sort_requires + a range with a require group partly outside the range', ['C09 quick'], 'second round, on the fixed tree'),
+ 'OWN-buildB': ('C05', 'default features only (the `#[cfg(not(feature = "luau"))]` branch of the hanging path): a parenthesised prefix expression `(e).k` at a width where it hangs loses its parentheses', ['C05 quick (build B)'], 'my own change, to show that build B sees what build A (all syntaxes) cannot; the repository suite (153 tests, default features) passes with it'),
  'REV-json': ('C18', 'revert of fix b... (JSON diff keeps only the first inserted line)', ['C18 quick'], 'my own fix reverted, to show the check rediscovers the defect'),
  'REV-exitjson': ('C13', 'revert of the JSON-mode parse error exit status fix', ['C13 quick'], 'own fix reverted'),
  'REV-race': ('C19', 'revert of the atomic-max fix (load-then-store race, needs 1 preemption)', ['C19 quick'], 'own fix reverted; invisible to the free-running C13'),
